@@ -414,7 +414,7 @@ def check_C18(tier, seed):
 
 
 FMT_PLANS = ["ok", "slow", "fail_after_read", "slow_read", "fail_no_read", "empty", "ok_no_read", "ok_partial_read", "kill_no_read", "kill_after_read", "kill_mid_read",
-             "kill_mid_output", "term_after_read", "absent"]
+             "kill_mid_output", "term_after_read", "absent", "near_swap", "near_str_ws", "near_prefix", "near_twice", "near_source_ws", "near_field_swap"]
 
 
 def describe_fmt(case, events, matched):
@@ -431,6 +431,16 @@ def describe_fmt(case, events, matched):
     return "events %s are not a behaviour of Format.tla for plan %s (stuck at %s)" % ([e.get("name", e.get("ev")) for e in events[1:]], case.get("fmt_plan"), json.dumps(ev)[:200])
 
 
+def fmt_env():
+    """environment of the fault-injecting formatter stub (cases with a `fmt_plan`)"""
+    real = shutil.which("rustfmt")
+    if not real:
+        raise ToolError("no rustfmt on PATH")
+    empty = os.path.join(WORK, "emptydir")
+    os.makedirs(empty, exist_ok=True)
+    os.environ.update({"VERIF_STUB_DIR": os.path.join(HARNESS, "stubs"), "VERIF_EMPTY_DIR": empty, "VERIF_REAL_RUSTFMT": real})
+
+
 def check_C19(tier, seed):
     rep = Report("C19", tier, seed)
     rng = random.Random(seed)
@@ -439,13 +449,7 @@ def check_C19(tier, seed):
     rep.add_mc("MC_Format(Tolerant, pipe capacity 2, sizes {1,3}, 6 plans)", r, "Safe, FormattedOnlyIfComplete, liveness Returns under weak fairness, deadlock check = hang")
     rep.add_selftest("MC_Format_mut(Tolerant=FALSE: the original unwrap / accept-any-exit-0 code)", run_mc("MC_Format.tla", "MC_Format_mut.cfg", workers=2, expect_violation=True))
     rep.add_selftest("MC_Format_stream(streaming child, outside the listed faults: deadlock found)", run_mc("MC_Format.tla", "MC_Format_stream.cfg", workers=2, expect_violation=True))
-    real = shutil.which("rustfmt")
-    if not real:
-        raise ToolError("no rustfmt on PATH")
-    empty = os.path.join(WORK, "emptydir")
-    os.makedirs(empty, exist_ok=True)
-    env = {"VERIF_STUB_DIR": os.path.join(HARNESS, "stubs"), "VERIF_EMPTY_DIR": empty, "VERIF_REAL_RUSTFMT": real}
-    os.environ.update(env)
+    fmt_env()
     small = [F.role_shader(rng)[0] for _ in range(3 if quick else 12)]
     large = [F.wide(120, 150), F.wide(300, 20)] if quick else [F.wide(120, 150), F.wide(300, 20), F.wide(60, 400), F.wide(500, 4)]
     cases = []
@@ -607,6 +611,14 @@ def check_C01(tier, seed):
                               {"name": "Main", "stage": "vertex", "params": [], "body": [], "wg": []}]}, "opts": F.opts()})
     for i, (n, S) in enumerate(ident_shaders(rng)):
         cases.append({"id": "ident-%03d" % i, "family": "compile-ident", "S": S, "opts": F.opts(bmv=True, enc=True, mv="glam", rustfmt=(i % 2 == 1))})
+    # scalar constants named like the local bindings of the generated root-level functions (identifier patterns resolve to constants)
+    for i, nm in enumerate(["device", "source", "module", "entry", "targets", "overrides", "entries", "value", "pass", "bind_group0", "step_mode", "v_in", "layout", "bindings", "index", "Device"]):
+        S = {"structs": [{"name": "VIn", "snake": "v_in", "members": [{"name": "p", "ty": F.VEC4, "io": {"k": "loc", "n": 0}}]}],
+             "globals": [{"name": "u", "space": "uniform", "group": "0", "binding": "0", "ty": F.VEC4}],
+             "consts": [{"name": nm, "decl": "u32", "expr": "3u", "expect": "u32:3"}], "overrides": [{"name": "scale", "ty": "f32", "default": "1.5"}], "functions": [],
+             "entries": [{"name": "vs_main", "stage": "vertex", "params": [{"k": "struct", "name": "v", "ty": "VIn"}], "result": {"k": "builtin", "b": "position"}, "body": [], "wg": []},
+                         {"name": "fs_main", "stage": "fragment", "params": [], "result": {"k": "loc", "n": 0, "ty": F.VEC4}, "body": [{"k": "access", "g": "u", "how": "load"}], "wg": []}]}
+        cases.append({"id": "local-%02d" % i, "family": "compile-ident", "S": S, "opts": F.opts()})
     re_ = run_mc("MC_Entries.tla", "MC_Entries.cfg", workers=4)
     rep.add_mc("MC_Entries", re_, "entry shapes exported")
     for i, e in enumerate(re_.cases[::(3 if quick else 1)]):
@@ -855,6 +867,10 @@ def check_C04(tier, seed):
         g["space"] = "handle" if g["ty"]["k"] in ("tex", "sampler") else "uniform"
     S2["entries"][0]["body"] = [{"k": "access", "g": g["name"], "how": "tex_dims" if g["ty"]["k"] == "tex" else "load"} for g in S2["globals"] if g["ty"]["k"] != "sampler"]
     ocases = [{"id": "ops-%04d" % i, "family": "bind-groups-op-sequences", "S": S2, "opts": F.opts(), "ops": e["ops"]} for i, e in enumerate(seqs[:(120 if quick else 2317)])]
+    # a formatter that hands back the program with two binding fields exchanged must not be believed
+    fmt_env()
+    ocases += [{"id": "ops-fmtswap-%d" % i, "family": "bind-groups-op-sequences-formatter-swaps-fields", "S": S2, "opts": F.opts(rustfmt=True), "ops": e["ops"], "fmt_plan": "near_field_swap"}
+               for i, e in enumerate(seqs[200:204])]
     compiled_and_judge(rep, "C04", ocases, "ops", "shim", want, keep=["groups"])
     compiled_and_judge(rep, "C04", sparse_group_cases(rng, 150 if quick else 3000), "random", "shim", want, keep=["groups"])
     return finish(rep)
@@ -958,9 +974,15 @@ def check_C16(tier, seed):
     for i, (a, b) in enumerate([("\u00e9", 5000), ("\U0001F600x", 2500), ("a\u00e9\u6570\U0001F600", 3000), ("\u6570", 1366), ("xy\u00e9", 1365)]):
         text = (a * b)[: b * len(a)]
         cases.append({"id": "src-long-%d" % i, "family": "source-long", "S": F.source_shader(text), "opts": F.opts(rustfmt=(i % 2 == 1))})
-    for i, pth in enumerate([" shader.wgsl", "shader.wgsl ", "shader.wgsl\n", "\tshader.wgsl", "\u3000shader.wgsl", "\u00a0x.wgsl\u00a0", " ", "./a/../shader.wgsl", "shader.wgsl\r\n"]):
+    for i, pth in enumerate([" shader.wgsl", "shader.wgsl ", "shader.wgsl\n", "\tshader.wgsl", "\u3000shader.wgsl", "\u00a0x.wgsl\u00a0", " ", "./a/../shader.wgsl", "shader.wgsl\r\n", "", "0", "None"]):
         cases.append({"id": "src-path-%d" % i, "family": "source-include-paths", "S": F.source_shader("p"), "opts": F.opts(include=pth)})
         cases.append({"id": "src-path-%d-emb" % i, "family": "source-include-paths", "S": F.source_shader("p"), "opts": F.opts()})
+    # a formatter whose output differs from the program only by a blank inside the SOURCE literal must not be believed
+    fmt_env()
+    for i, e in enumerate(exported[::max(1, len(exported) // (12 if quick else 60))]):
+        cases.append({"id": "src-fmtws-%03d" % i, "family": "source-formatter-alters-literal", "S": F.source_shader(F.class_string(e["classes"])), "opts": F.opts(rustfmt=True), "fmt_plan": "near_source_ws"})
+    for i, (name, text) in enumerate(seeds[:4]):
+        cases.append({"id": "src-fmtws-real-%d" % i, "family": "source-formatter-alters-literal", "wgsl": text, "opts": F.opts(rustfmt=True), "fmt_plan": "near_source_ws"})
     drive_and_judge(rep, "C16", cases, "static", ["source", "nosource_sha"])
     # a sample goes through rustc: SOURCE evaluated by the compiler and handed to the (recording) device
     sample = [c for c in cases if "include" not in c["opts"]][::(30 if quick else 8)]
